@@ -730,4 +730,4 @@ class C01(BfsSuite):
 def suites(tier, seed):
     if tier == 'quick':
         return [C01(depth=2, maxrows=3)]
-    return [C01(depth=4, maxrows=4)]
+    return [C01(depth=3, maxrows=4)]
